@@ -4,5 +4,6 @@ use toml::value::Table;
 #[derive(Clone, Default, Debug, Deserialize, Serialize)]
 #[serde(deny_unknown_fields)]
 pub struct Store {
+    #[serde(default)]
     pub metadata: Table,
 }
